@@ -22,6 +22,8 @@ def make(recipe):
     if kind == "track":
         n, which = recipe["n"], recipe["mask"]
         return gen.TRACK_GEN[layout](rng, n, gen.mask(rng, n, which)), rng
+    if kind == "large":
+        return gen.large(layout, seed), rng
     if kind == "trackblock":
         n, masks = recipe["n"], recipe["masks"]
         return gen.TRACK_BLOCK[layout](rng, len(masks), n, masks=[gen.mask(rng, n, w) for w in masks]), rng
@@ -45,6 +47,10 @@ def codec_cases(seed, tier, layouts=None):
             continue
         for i in range(nitem):
             yield dict(kind="item", layout=name, seed=seed, index=i)
+    for name in gen.LARGE:
+        if layouts and name not in layouts:
+            continue
+        yield dict(kind="large", layout=name, seed=seed, index=0)
     for name in gen.TRACK_GEN:
         if layouts and name not in layouts and BLOCK_OF_TRACK[name] not in layouts:
             continue
@@ -54,7 +60,7 @@ def codec_cases(seed, tier, layouts=None):
         rng = random.Random(f"{seed}:tb:{name}")
         for i in range(10 if tier == "quick" else 60):
             n = rng.randint(1, 8)
-            yield dict(kind="trackblock", layout=name, seed=seed, index=i, n=n, masks=[rng.getrandbits(n) for _ in range(rng.randint(1, 3))])
+            yield dict(kind="trackblock", layout=name, seed=seed, index=i, n=n, masks=[rng.choice([0, rng.getrandbits(n), rng.getrandbits(n), (1 << n) - 1]) for _ in range(rng.randint(1, 4))])
 
 
 def layout_of_recipe(r):
@@ -152,12 +158,46 @@ def check_history(name, o, rng):
     return fails
 
 
+def check_gaps_block(name, o, rng):
+    """C05 'for any number of tracks per block': after encoding and decoding a whole block every track has its gaps where
+    they were and its present frames with their stored words (a decoder that leaves the stream misplaced after one track
+    shows in the next)"""
+    try:
+        b1 = cc.real_write(name, o)
+        r = cc.real_build(name, io.BytesIO(b1 + b"\xA5" * 7), o)
+    except Exception as e:
+        return [cc._fail("C05.block", name, f"encode/decode of a block with several tracks raised {e!r}", cc.describe(name, o))]
+    try:
+        if cc.encode(name, r)[0] != cc.encode(name, o)[0]:
+            return [cc._fail("C05.block", name, "after encode/decode of the whole block the tracks' runs / present values differ from what was stored", cc.describe(name, o))]
+    except Exception as e:
+        return [cc._fail("C05.block", name, f"decoded block is malformed: {e!r}", cc.describe(name, o))]
+    return []
+
+
+def check_size_nonfinite(name, o, rng):
+    """C02's size clause on blocks holding +-inf in a leading component: declared size == bytes written"""
+    from harness import edits
+    try:
+        if not edits.poison_leading_component(name, o, rng):
+            return []
+        b = cc.real_write(name, o)
+        nb = cc.real_nbytes(name, o)
+    except Exception as e:
+        return []
+    if nb != len(b):
+        return [cc._fail("RT.size", name, f"with an infinite leading component in a frame: nBytes = {nb} but {len(b)} bytes were written", cc.describe(name, o))]
+    return []
+
+
 CHECKS = {
     "write": lambda name, o, rng: cc.check_write(name, o),
     "build": lambda name, o, rng: cc.check_build(name, o, rng),
     "roundtrip": check_roundtrip,
     "gaps": lambda name, o, rng: cc.check_gaps(name, o, rng) if name in gen.TRACK_GEN else [],
     "history": check_history,
+    "gaps_block": check_gaps_block,
+    "size_nonfinite": check_size_nonfinite,
 }
 
 
@@ -169,6 +209,13 @@ def run_recipe(recipe, checks):
     for c in checks:
         if c == "gaps" and recipe["kind"] != "track":
             continue
+        if c == "gaps_block" and recipe["kind"] != "trackblock":
+            continue
+        if recipe["kind"] == "large" and c not in ("write", "roundtrip", "size_nonfinite"):
+            continue            # the per-frame writers make each encoding of these cost about a second
+        if c == "size_nonfinite":
+            o, _ = make(recipe)
+            rng = random.Random(f"{recipe['seed']}:{recipe['layout']}:{recipe['index']}:{recipe.get('n')}:{recipe.get('mask')}:inf")
         if c == "history":      # own object and own randomness: independent of which other checks ran before (replay)
             o, _ = make(recipe)
             rng = random.Random(f"{recipe['seed']}:{recipe['layout']}:{recipe['index']}:{recipe.get('n')}:{recipe.get('mask')}:history")
@@ -201,21 +248,27 @@ def run_btsstring_suite(seed, tier):
     widths = [1, 2, 5, 32, 256] if tier == "quick" else [1, 2, 3, 5, 8, 31, 32, 33, 255, 256, 257]
     for size in widths:
         fixed = ["", "a", "a" * (size - 1), "a" * size, "a" * (size + 1), "€", "€" * max(size - 1, 0), "€" * size, "Ā", "a\x00b", "\x81", "é", "\x00",
+                 "\udc80", "a\udcff", "\ud800", "\udfff", "Â°", "Ã©", "â‚¬", "Â°" * max((size - 1) // 2, 0),
                  "z" * (size - 2) + "€" if size >= 2 else "€"]
         for s in fixed:
             n += 1
             fails += cc.check_btsstring(size, s)
         for _ in range(40 if tier == "quick" else 400):
             L = rng.choice([0, 1, size - 2, size - 1, size, size + 1, rng.randint(0, size + 3)])
-            s = "".join(rng.choice(gen.CP1252 + ["Ā", "中", "\x81", "\x00"] if rng.random() < 0.15 else gen.CP1252) for _ in range(max(L, 0)))
+            s = "".join(rng.choice(gen.CP1252 + ["Ā", "中", "\x81", "\x00", "\udc80", "\udcfe", "\ud83d"] if rng.random() < 0.15 else gen.CP1252) for _ in range(max(L, 0)))
             n += 1
             fails += cc.check_btsstring(size, s)
     # every cp1252 character and every code point class at every position of a small field
-    for c in gen.CP1252 + ["\x81", "\x8d", "\x8f", "\x90", "\x9d", "Ā", "\U0001F600"]:
+    for c in gen.CP1252 + ["\x81", "\x8d", "\x8f", "\x90", "\x9d", "Ā", "\U0001F600", "\udc80", "\udcff", "\ud800"]:
         for pos in range(3):
             s = "a" * pos + c + "b" * (2 - pos)
             n += 1
             fails += cc.check_btsstring(4, s) + cc.check_btsstring(3, s)
+    hi = [c for c in gen.CP1252 if ord(c) >= 0x80]
+    for a in hi:
+        for b in (hi if tier != "quick" else hi[::7] + ["°", "©", "¬", "€"]):
+            n += 1
+            fails += cc.check_btsstring(8, a + b) + (cc.check_btsstring(8, "x" + a + b + "\u201a") if tier != "quick" else [])
     for f in fails:
         f["recipe"] = dict(kind="btsstring", size=f["repro"]["size"], string=f["repro"]["string"])
     return dict(cases=n, distinct=n, wall=0), fails
